@@ -578,11 +578,17 @@ func (s *Server) receiveMessage(m Message) error {
 		}
 	case *DeleteFieldMessage:
 		idx := s.holder.Index(obj.Index)
+		if idx == nil {
+			return fmt.Errorf("local index not found: %s", obj.Index)
+		}
 		if err := idx.DeleteField(obj.Field); err != nil {
 			return err
 		}
 	case *DeleteAvailableShardMessage:
 		f := s.holder.Field(obj.Index, obj.Field)
+		if f == nil {
+			return fmt.Errorf("local field not found: %s/%s", obj.Index, obj.Field)
+		}
 		if err := f.RemoveAvailableShard(obj.ShardID); err != nil {
 			return err
 		}
